@@ -77,3 +77,43 @@ keeps the default `skip_empty: false` of `MakeOptions`.  No other caller in `/re
 def cliSkipEmpty (paired flag : Bool) : Bool := if paired then false else flag
 
 end ObiVerif.WriterWfile
+
+/-! ## `obicsv --auto`: column detection (`WriteCSV`, `opt.pointer.csv_auto`)
+
+```go
+if opt.pointer.csv_auto { if iterator.Next() { batch := iterator.Get()
+    auto_slot = batch.Slice().AttributeKeys(true)      // union over the records of the keys whose value is not a map
+    auto_keys := auto_slot.Members(); sort.Strings(auto_keys)
+    CSVKeys(auto_keys)(opt)                            // APPENDS to the keys given explicitly
+    iterator.PushBack() } }
+```
+The batch looked at is the FIRST ONE DELIVERED by the input iterator — batch 0 only when the input is in order. -/
+namespace ObiVerif.WriterWfile
+open ObiVerif.WriterFmt
+
+/-- insertion in a list sorted by `ltB` (Go string `<`), without duplicates -/
+def insertU (k : B) : List B → List B
+  | [] => [k]
+  | x :: xs => if ltB k x then k :: x :: xs else if k = x then x :: xs else x :: insertU k xs
+
+def isMap : Val → Bool
+  | .map _ => true
+  | _ => false
+
+/-- `BioSequence.AttributeKeys(true)` in the order of the annotation list -/
+def attrKeys (r : Rec) : List B := (r.ann.filter (fun e => !isMap e.2)).map Prod.fst
+
+/-- `sort.Strings(batch.Slice().AttributeKeys(true).Members())` -/
+def autoKeys (first : List Rec) : List B := (first.flatMap attrKeys).foldr insertU []
+
+/-- the option set after the detection: the detected keys are appended to the explicit ones -/
+def autoCfg (c : Cfg) (first : List Rec) : Cfg := { c with csv := { c.csv with keys := c.csv.keys ++ autoKeys first } }
+
+/-- `WriteCSV` with `CSVAutoColumn(true)`: `src` is the order in which the input iterator delivers the batches (the
+detection looks at the first one), `arr` the order in which the formatted chunks reach the writer goroutine -/
+def writeCsvAuto (c : Cfg) (src arr : List (Nat × List Rec)) : Option B :=
+  match src with
+  | [] => writeFile c arr
+  | a :: _ => writeFile (autoCfg c a.2) arr
+
+end ObiVerif.WriterWfile
